@@ -31,6 +31,9 @@ func genOptions(t *rapid.T) *Options {
 			o.MEs[i].Name = 100 + rapid.SampledFrom(append([]int{o.MEs[i].Eps[0]}, 0, 1, 2, 3)).Draw(t, "epnameidx")
 		}
 	}
+	if rapid.IntRange(0, 7).Draw(t, "emptyname") == 0 {
+		o.MEs[rapid.IntRange(0, n-1).Draw(t, "emptynamewhich")].Name = 99 // a MultiEndpoint whose name is the empty string
+	}
 	o.Default = rapid.IntRange(0, n-1).Draw(t, "def")
 	return o
 }
